@@ -163,6 +163,23 @@ def labels_collide(c):
     return False
 
 
+def gen_tied(rng, names, forced=False):
+    """[[attribute, source attribute], ...]: attributes of the perturbation model that hold no prior of their own and are
+    driven by the very prior object of the source attribute"""
+    free = [a for a in ATTRS if a not in names]
+    if not free or not (forced or rng.random() < 0.35):
+        return []
+    k = rng.randint(1, len(free))
+    return [[a, rng.choice(names)] for a in rng.sample(free, k)]
+
+
+def sens_slots(c):
+    """the perturbation model as attribute slots: index of the prior (creation = id order) or None for a fixed value"""
+    names = [p[0] for p in c["priors"]]
+    tied = dict((a, b) for a, b in c.get("tied", []))
+    return [names.index(a) if a in names else names.index(tied[a]) if a in tied else None for a in ATTRS]
+
+
 def gen_extras(rng, names):
     """non-grid content of each component: constants, Gaussian / LogUniform priors, one prior shared by several
     components, and `alias:<x>` = the prior object of component x's centre on a second path"""
@@ -226,11 +243,22 @@ def gen_cases(ctx):
         cap = {1: 12, 2: 5, 3: 3}[d]
         n = rng.randint(1, cap)
         extras = gen_extras(rng, [p[0] for p in pri]) if rng.random() < 0.7 else {}
-        cases.append({"kind": "mappers", "n": n, "priors": pri, "grid": grid, "extras": extras})
+        # sharing patterns: a grid prior that also drives an attribute of ANOTHER component (one object, two paths) and
+        # grid_priors naming one prior twice -- every seed gets both (k % 4 == 0), for int d = 1, 2, 3
+        grid_dup = []
+        if k % 4 == 0 or rng.random() < 0.25:
+            g = rng.choice(grid)
+            other = rng.choice([p[0] for p in pri if p[0] != g])
+            extras = {x: dict(e) for x, e in extras.items()}
+            extras.setdefault(other, {})[rng.choice(ATTRS[1:])] = "alias:" + g
+            grid_dup = [g] + [x for x in grid if x != g and rng.random() < 0.4]
+        elif rng.random() < 0.2:
+            grid_dup = rng.sample(grid, rng.randint(1, d))
+        cases.append({"kind": "mappers", "n": n, "priors": pri, "grid": grid, "extras": extras, "grid_dup": grid_dup})
         total = n ** d
         order = list(range(total))
         rng.shuffle(order)
-        cases.append({"kind": "fit", "n": n, "priors": pri, "grid": grid, "order": order, "extras": extras,
+        cases.append({"kind": "fit", "n": n, "priors": pri, "grid": grid, "order": order, "extras": extras, "grid_dup": grid_dup,
                       "entry": "fit" if rng.random() < 0.75 else "_fit", "interval": rng.choice([1, 1, 2, 3, 100])})
     if thorough:
         # the real process pool (number_of_cores > 1): completion order is whatever the OS makes it
@@ -273,7 +301,8 @@ def gen_cases(ctx):
             ns_ = [min(rng.choice(special_n), cap) if rng.random() < 0.3 else rng.randint(1, cap) for _ in range(d)]
         else:
             ns_ = [rng.randint(1, cap)] * d
-        cases.append({"kind": "sens_lists", "ns": ns_, "as_tuple": as_tuple})
+        share = [[rng.randrange(d), rng.choice(ATTRS[1:]), rng.randrange(d)] for _ in range(rng.randint(1, 3))] if rng.random() < 0.5 else []
+        cases.append({"kind": "sens_lists", "ns": ns_, "as_tuple": as_tuple, "share": share})
         ls = rng.choice(scales) if rng.random() < 0.8 else round(rng.uniform(0.1, 5.0), rng.randint(1, 6))
         cases.append({"kind": "sens_cells", "ns": ns_, "as_tuple": as_tuple, "limit_scale": ls if isinstance(ls, int) else ls.hex()})
         arr = list(range(rng.randint(1, 25)))
@@ -281,11 +310,22 @@ def gen_cases(ctx):
         cases.append({"kind": "sens_sorted", "arrivals": arr})
     # real Sensitivity.run() with a permuted completion order; the perturb priors are created in a random
     # order, so prior id order (the order of the grid dimensions) differs from attribute (path) order
-    for i in range(10 if not thorough else 40):
+    for i in range(12 if not thorough else 48):
         d = rng.choice([1, 2, 2, 3])
+        # sharing patterns (i % 12 < 5): a prior shared by two or three attributes, so that fewer priors are distinct
+        # than attributes hold one; every seed gets int step counts n >= 2 and n = 1 and a tuple on such a model
+        forced = i % 12 < 5
+        if forced:
+            d = [1, 2, 2, 1, 2][i % 12]
         cap = {1: 8, 2: 4, 3: 3}[d]
         as_tuple = rng.random() < 0.7
+        if forced:
+            as_tuple = i % 12 == 4
         ns_ = [rng.randint(1, cap) for _ in range(d)] if as_tuple else [rng.randint(1, cap)] * d
+        if forced and i % 12 < 3:
+            ns_ = [rng.randint(2, cap)] * d
+        if forced and i % 12 == 3:
+            ns_ = [1] * d
         total = 1
         for n_ in ns_:
             total *= n_
@@ -296,7 +336,8 @@ def gen_cases(ctx):
             lo = float(rng.randint(-4, 4))
             pri.append([nm, lo.hex(), (lo + rng.choice([1.0, 2.0, 4.0, 8.0])).hex()])
         ls = rng.choice([1, 1, 1, 2, 0.5, 3.0])
-        cases.append({"kind": "sens_run", "ns": ns_, "as_tuple": as_tuple, "order": order, "priors": pri,
+        tied = gen_tied(rng, [p[0] for p in pri], forced)
+        cases.append({"kind": "sens_run", "ns": ns_, "as_tuple": as_tuple, "order": order, "priors": pri, "tied": tied,
                       "weights": [[nm, (2.0 ** (-8 * j)).hex()] for j, nm in enumerate(ATTRS)],
                       "limit_scale": ls if isinstance(ls, int) else ls.hex(),
                       "cores": 2 if (thorough and i % 20 == 7) else 1})
@@ -367,7 +408,8 @@ def gen_history_grid(rng):
         elif op == "cells":
             st = {"kind": "cells", "n": n, "priors": [[lim[nm][0].hex(), lim[nm][1].hex()] for nm in grid]}
         else:
-            st = {"kind": op, "n": n, "priors": pri, "grid": list(grid), "extras": extras, "reuse_model": j > 0 and rng.random() < 0.7}
+            st = {"kind": op, "n": n, "priors": pri, "grid": list(grid), "extras": extras, "reuse_model": j > 0 and rng.random() < 0.7,
+                  "grid_dup": rng.sample(list(grid), rng.randint(1, d)) if rng.random() < 0.25 else []}
             if op == "fit":
                 order = list(range(n ** d))
                 rng.shuffle(order)
@@ -410,6 +452,7 @@ def gen_history_sens(rng):
                 lo = float(rng.randint(-4, 4))
                 pri.append([nm, lo.hex(), (lo + rng.choice([1.0, 2.0, 4.0, 8.0])).hex()])
             st = {"kind": op, "ns": ns_, "as_tuple": as_tuple, "order": order, "priors": pri,
+                  "tied": gen_tied(rng, [p[0] for p in pri]),
                   "weights": [[nm, (2.0 ** (-8 * i)).hex()] for i, nm in enumerate(ATTRS)], "limit_scale": ls, "cores": 1}
         steps.append(st)
     return {"kind": "history", "target": "sens", "pattern": "sens", "steps": steps}
@@ -574,13 +617,38 @@ def oracle_all(c, r):
     return [(msg, [])] if msg else []
 
 
+def dup_note(c):
+    return ", grid_priors names %s twice" % c["grid_dup"] if c.get("grid_dup") else ""
+
+
+def gridlist_fails(gls, shape, tot, what):
+    """every per-cell GridList has the grid's shape, one entry per cell fitted, and lays out on the native grid row-major"""
+    out = []
+    for name, g in sorted(gls.items()):
+        if g["shape"] != shape or g["len"] != tot:
+            out.append(("%s has shape %s and %d entries; %d cells of shape %s were fitted (%s)" % (name, g["shape"], g["len"], tot, shape, what), []))
+        elif "native_exc" in g:
+            out.append(("%s.native cannot be laid out on the grid of shape %s: %s (%s)" % (name, shape, g["native_exc"], what), []))
+        elif "native_shape" in g and (g["native_shape"] != shape or not g["rowmajor"]):
+            out.append(("%s.native has shape %s (row-major: %s), the grid is %s (%s)" % (name, g["native_shape"], g["rowmajor"], shape, what), []))
+    return out[:3]
+
+
 def oracle_fit(c, r):
     n, d = c["n"], len(c["grid"])
     tot = n ** d
     if r["shape"] != [n] * d:
-        return [("shape %s expected %s" % (r["shape"], [n] * d), [])]
+        return [("shape %s expected %s (%d distinct grid priors%s)" % (r["shape"], [n] * d, d, dup_note(c)), [])]
     if r["no_steps"] != tot or len(r["samples"]) != tot:
-        return [("result has %d cells" % r["no_steps"], [])]
+        return [("result has %d cells, %d distinct grid priors with %d steps%s" % (r["no_steps"], d, n, dup_note(c)), [])]
+    pre = []
+    if "gridlists" in r:
+        if r["no_dimensions"] != d or r["n_grid_priors"] != d or r["side_length"] != n or r["row_lengths"] != [d]:
+            pre.append(("result of a grid over %d distinct priors%s reports no_dimensions %s, %s grid priors, side_length %s, limit rows of "
+                        "lengths %s" % (d, dup_note(c), r["no_dimensions"], r["n_grid_priors"], r["side_length"], r["row_lengths"]), []))
+        pre += gridlist_fails(r["gridlists"], [n] * d, tot, "%d distinct grid priors%s" % (d, dup_note(c)))
+    if pre:
+        return pre
     dims = r["sorted_names"]           # the library's order of the grid dimensions (sort_priors_alphabetically)
     aliased = any(v.startswith("alias:") for e in c.get("extras", {}).values() for v in e.values())
     if sorted(dims) != sorted(c["grid"]) or (not aliased and dims != sorted(c["grid"])):
@@ -717,8 +785,27 @@ def oracle_sens_run(c, r):
     tot = 1
     for n in ns:
         tot *= n
+    tied = dict((a, b) for a, b in c.get("tied", []))
+    d = len(names)
+    what = "%d distinct priors %s%s, number_of_steps = %s" % (d, names, "".join(", %s = %s" % tuple(ab) for ab in c.get("tied", [])),
+                                                            tuple(ns) if c["as_tuple"] else ns[0])
     if r["shape"] != ns or r["n"] != tot or r["n_perturb"] != tot or r["native_shape"] != ns:
-        return [("sensitivity result has shape %s and %d entries for steps %s" % (r["shape"], r["n"], ns), [])]
+        return [("sensitivity result has shape %s (native %s) and %d entries; %d cells of shape %s are to be fitted (%s)"
+                 % (r["shape"], r["native_shape"], r["n"], tot, ns, what), [])]
+    if "gridlists" in r:
+        pre = []
+        if (r["sens_shape"] != ns or r["lattice_len"] != tot or r["lattice_rows"] != [d] or r["prior_count"] != d or r["n_headers"] != d
+                or len(r["csv_header"]) != d + 3):
+            pre.append(("Sensitivity.shape %s, lattice of %d points with %s coordinates, prior_count %d, %d headers, csv header %s: "
+                        "not one grid of shape %s (%s)" % (r["sens_shape"], r["lattice_len"], r["lattice_rows"], r["prior_count"],
+                                                           r["n_headers"], r["csv_header"], ns, what), []))
+        if r["slots"] != sens_slots(c):
+            pre.append(("sharing structure of the perturbation model is %s, built as %s" % (r["slots"], sens_slots(c)), []))
+        if not r["tied_same"] or not r["tied_dataset"]:
+            pre.append(("attributes tied to one prior are no longer tied in a cell's model / simulated instance (%s)" % what, []))
+        pre += gridlist_fails(r["gridlists"], ns, tot, what)
+        if pre:
+            return pre
     ls = c.get("limit_scale", 1)
     ls = unhex(ls) if isinstance(ls, str) else float(ls)
     pri = {nm: (unhex(a), unhex(b)) for nm, a, b in c["priors"]}
@@ -736,9 +823,10 @@ def oracle_sens_run(c, r):
         exp.append(cell)
     fails = []
     order_classes = []
+    group = {nm: [nm] + [a for a, b in c.get("tied", []) if b == nm] for nm in names}
 
     def enc(idx):
-        return -sum(w * (exp[idx][nm]["centre"] if nm in exp[idx] else 1.0) for nm, w in wts)
+        return -sum(w * (exp[idx][nm]["centre"] if nm in exp[idx] else exp[idx][tied[nm]]["centre"] if nm in tied else 1.0) for nm, w in wts)
 
     # the k-th perturbed fit was made on cell k
     for idx in range(tot):
@@ -776,11 +864,13 @@ def oracle_sens_run(c, r):
             idx = row[0]
             stop = False
             for nm in names:
-                if nm not in hdr:
-                    fails.append(("results.csv has no column %s" % nm, []))
+                # the column is headed by ONE of the attributes holding the prior
+                found = [x for x in group[nm] if x in hdr]
+                if len(found) != 1:
+                    fails.append(("results.csv has no single column for the prior of %s (header %s)" % (group[nm], hdr), []))
                     stop = True
                     break
-                v = unhex(row[hdr.index(nm)])
+                v = unhex(row[hdr.index(found[0])])
                 e = exp[idx][nm]
                 if not close(v, e["centre"], e["w"]):
                     cell_lo, cell_hi = unhex(r["cells"][idx][nm][0]), unhex(r["cells"][idx][nm][1])
@@ -801,7 +891,8 @@ def oracle_sens_run(c, r):
                 fails.append(("job %d carries number %d" % (idx, number), []))
                 break
             vals = parse_label(label)
-            wrong = [nm for nm in names if nm not in vals or not close(vals[nm], exp[idx][nm]["centre"], exp[idx][nm]["w"])]
+            wrong = [nm for nm in names if sum(x in vals for x in group[nm]) != 1
+                     or any(x in vals and not close(vals[x], exp[idx][nm]["centre"], exp[idx][nm]["w"]) for x in group[nm])]
             if wrong:
                 fails.append(("the folder of cell %d is labelled %s, but the cell's centre is %s"
                               % (idx, label, {nm: exp[idx][nm]["centre"] for nm in names}), order_classes))
@@ -1022,6 +1113,10 @@ def coq_cases(c, r):
             if r[key] and all(x is not None for x in r[key]):
                 exp = clist([clist([cpair(cfloat(unhex(s[nm][0])), cfloat(unhex(s[nm][1]))) for nm in names]) for s in r[key]])
                 out.append("CCells %s %s %s" % (cZ(c["n"]), pri, exp))
+        if "row_lengths" in r and len(r["row_lengths"]) == 1:
+            ids = clist([cZ(sorted(x[0] for x in c["priors"]).index(nm)) for nm in c["grid"] + c.get("grid_dup", [])])
+            out.append("CGridDims %s %s %s %s %s" % (cZ(c["n"]), ids, clist([cZ(x) for x in r["shape"]]), cZ(r["no_steps"]),
+                                                     clist([cZ(r["row_lengths"][0])] * r["no_steps"])))
         if r["progress"]:
             out.append("CProgress %s %s %s" % (cnat(c["n"] ** len(names)), clist([cZ(x) for x in c["order"]]),
                                                clist([clist([cbool(x) for x in row]) for row in r["progress"]])))
@@ -1053,6 +1148,11 @@ def coq_cases(c, r):
         # identify the cell each result entry belongs to (by the dataset simulated for it), then compare the
         # order of BOTH result lists with the model's sorted collection of the arrivals
         out = []
+        if "lattice_len" in r:
+            st = "(StepsTuple %s)" % clist([cZ(n) for n in c["ns"]]) if c["as_tuple"] else "(StepsInt %s)" % cZ(c["ns"][0])
+            slots = clist(["None" if x is None else "(Some %s)" % cZ(x) for x in sens_slots(c)])
+            out.append("CSensModel %s %s %s %s %s" % (st, slots, clist([cZ(x) for x in r["shape"]]), cZ(r["n"]),
+                                                      clist([cZ(r["lattice_rows"][0])] * r["lattice_len"]) if len(r["lattice_rows"]) == 1 else "[]"))
         for key in ("base_dataset", "perturb_dataset"):
             numbers = [cell_number(ds, c) for ds in r[key]]
             out.append("CSensSorted %s %s" % (clist([cZ(x) for x in c["order"]]), clist([cZ(x) for x in numbers])))
@@ -1110,7 +1210,7 @@ def run(ctx):
                 "shared / aliased other parameters, real fits through GridSearch.fit/_fit with a permuted completion order and a "
                 "likelihood that is a function of the cell, GridSearchResult accessors, ResultBuilder arrival orders with re-delivery, "
                 "sensitivity lattices / unit cells with limit_scale / sorting / real Sensitivity.run with perturb priors created out "
-                "of path order, and HISTORIES: one GridSearch / Sensitivity object used for several make_lists / make_arguments / "
+                "of path order and priors shared by several attributes (fewer distinct priors than attributes holding one), grid priors on a second path / named twice, and HISTORIES: one GridSearch / Sensitivity object used for several make_lists / make_arguments / "
                 "model_mappers / make_jobs / fit (resp. _lists / _perturb_models / run) calls with number_of_steps, the number of grid "
                 "priors, their limits, limit_scale and the model changed between uses -- every use is checked as a single use, against "
                 "a fresh object and against the state-machine model); a case is non-trivial when n >= 2 (count: n >= 3) and, for ordered kinds, the completion order "
@@ -1183,8 +1283,12 @@ def run(ctx):
         if c["kind"] == "sens_run":
             ctx.hist("sens_run.created_in_path_order", not sens_classes(c))
             ctx.hist("sens_run.limit_scale", str(c["limit_scale"]))
+            ctx.hist("sens_run.sharing", "%d distinct priors / %d attributes hold one / steps %s" % (
+                len(c["priors"]), len(c["priors"]) + len(c.get("tied", [])), "tuple" if c["as_tuple"] else "int"))
         if c["kind"] == "fit":
             ctx.hist("fit.two_decimal_labels_would_collide", labels_collide(c))
+            ctx.hist("fit.grid_prior_named_twice", bool(c.get("grid_dup")))
+            ctx.hist("fit.grid_prior_on_second_path", any(v == "alias:" + g for e in c["extras"].values() for v in e.values() for g in c["grid"]))
         if c["kind"] == "history":
             ctx.hist("history.pattern", "%s:%s" % (c["target"], c.get("pattern")))
             ctx.hist("history.uses", len(c["steps"]))
@@ -1240,13 +1344,18 @@ MANIFEST = {
             "disjoint cells; reported limits/centres are those of the cell fitted; results keyed by job number for every completion "
             "order incl. re-delivery (latest wins) and paths pairing; sensitivity counts, positional sorting, unit cells for "
             "limit_scale = 1 equal to the grid-search cells and bounded for every limit_scale >= 0; shape under a 1/2-accurate root; "
-            "binary64 count on 1..131072 by a kernel-checked sweep; the grid-search / sensitivity OBJECT as a state machine with an "
+            "binary64 count on 1..131072 by a kernel-checked sweep; SHARING PATTERNS: the perturbation model as attribute slots (fixed / prior id, one prior in "
+            "several slots), the number of grid dimensions = number of DISTINCT priors, Sensitivity.shape has that many entries and IS the shape of the lattice "
+            "_lists enumerates for int and tuple step counts (product = cells, every point d coordinates), a per-attribute shape refuted whenever a prior is "
+            "shared, grid priors named twice give one dimension; the grid-search / sensitivity OBJECT as a state machine with an "
             "explicit lattice cache: every answer of every history of uses equals a fresh object's answer for the current "
             "(n, d, limits) for the code's policy (no cache) and for any sound cache, refuted for a cache keyed by d alone) plus bit-exact vm_compute correspondence of the model with the "
             "running code and a direct property oracle on every generated case (single uses and histories of one reused object with attributes "
             "changed between uses, each use also compared with a fresh object), where the likelihood of every fit is a function of "
             "its cell so that every per-cell list (samples, log_likelihoods, native, log_evidences, attribute_grid, builder results "
-            "and paths, csv columns by header, sensitivity base/perturbed samples, folder labels) is tied to cell k",
+            "and paths, csv columns by header, sensitivity base/perturbed samples, folder labels) is tied to cell k; every seed runs real Sensitivity.run() on perturbation models with a prior shared by 2-3 "
+            "attributes (int n >= 2, n = 1, tuple) and real GridSearch fits whose grid prior also sits on a second path and is named twice in grid_priors, and "
+            "observes Sensitivity.shape, the lattice, prior_count, headers, shape / len / .native shape / row-major layout of EVERY per-cell GridList",
     "note": "Trusted: Coq kernel + vm_compute, primitive floats, the translator pyexpr2coq.py, the correspondence harness; libm pow is an "
             "oracle (binary64 shape swept by the harness on d<=6, n^d<=1e6); tiling is proved over exact rationals (binary64 cells are "
             "compared bit-for-bit by correspondence only); UniformPrior.value_for is modelled as lo+u*(hi-lo) without its 14-decimal "
